@@ -73,7 +73,10 @@ class ProjectSettings:
 
     @sim_end.setter
     def sim_end(self, sim_end):
-        self._sim_end = self.sim_start + np.ceil((sim_end - self.sim_start) / self.sim_dt) * self.sim_dt
+        n_steps = (sim_end - self.sim_start) / self.sim_dt
+        if abs(n_steps - np.round(n_steps)) < 1e-9:
+            n_steps = np.round(n_steps)  # The requested end year is already on the time grid (to within floating point error), so don't step past it
+        self._sim_end = self.sim_start + np.ceil(n_steps) * self.sim_dt
         if sim_end != self._sim_end:
             logger.info(f"Changing sim end from {sim_end} to {self._sim_end} ({(self._sim_end - self._sim_start) / self._sim_dt:.0f} timesteps)")
 
